@@ -18,7 +18,7 @@ pub enum J {
     Obj(Vec<((String, String), J)>),
 }
 
-const NUMS: [&str; 9] = ["0", "-1", "-0", "1.5", "1e3", "1E+2", "-2.5e-3", "9223372036854775807", "12345678901234567890"];
+const NUMS: [&str; 13] = ["0", "-1", "-0", "1.5", "1e3", "1E+2", "-2.5e-3", "9223372036854775807", "12345678901234567890", "1234567890123456", "3.14159265358979", "1E5", "1234567890123456.7890123456789012"];
 /// (spelling, decoded)
 const SYMS: [(&str, &str); 17] = [("a", "a"), (" ", " "), (":", ":"), ("#", "#"), (",", ","), ("[", "["), ("{", "{"), ("\\\"", "\""), ("\\\\", "\\"), ("/", "/"), ("\\/", "/"), ("\\n", "\n"), ("\\t", "\t"), ("é", "é"), ("\\u00e9", "é"), ("-", "-"), ("'", "'")];
 
